@@ -163,6 +163,26 @@ func catalog(p ScenParams) *WSpec {
 		src.Items = srcItems("in", 2)
 		w.Procs = []ProcSpec{src, ps, pp, simpleProc("q", kind)}
 		w.Edges = []Edge{fe("src", "out", "p", "in"), {From: "ps", FromPort: "out", To: "p", ToPort: "a", Param: true}, fe("p", "out", "q", "in")}
+	case "g8f": // ONE parameter source feeds two processes (p and x): RunTo(p) must cut the connection to x
+		mk := func(name string) ProcSpec {
+			return ProcSpec{Name: name, Kind: kind, Ins: []string{"in"}, Params: []string{"a"}, Outs: []OutSpec{{Name: "out", Pattern: "{i:in}.{p:a}." + name}}}
+		}
+		vals := []string{}
+		for i := 0; i < p.Items; i++ {
+			vals = append(vals, fmt.Sprintf("v%d", i))
+		}
+		ps := ProcSpec{Name: "ps", Kind: "psrc", Items: vals}
+		src2 := ProcSpec{Name: "src2", Kind: "src", Items: srcItems("jn", p.Items)}
+		w.Procs = []ProcSpec{src, src2, ps, mk("p"), mk("x")}
+		w.Edges = []Edge{fe("src", "out", "p", "in"), {From: "ps", FromPort: "out", To: "p", ToPort: "a", Param: true}, fe("src2", "out", "x", "in"), {From: "ps", FromPort: "out", To: "x", ToPort: "a", Param: true}}
+	case "g8g": // a dead-end FILE out-port (p.out) and a dead-end PARAMETER out-port (ps.out): the sink drains both
+		vals := []string{}
+		for i := 0; i < p.Items; i++ {
+			vals = append(vals, fmt.Sprintf("v%d", i))
+		}
+		ps := ProcSpec{Name: "ps", Kind: "psrc", Items: vals}
+		w.Procs = []ProcSpec{src, simpleProc("p", kind), ps}
+		w.Edges = []Edge{fe("src", "out", "p", "in")}
 	case "g8b": // parameter port fed by a ParamSource process
 		pp := ProcSpec{Name: "p", Kind: kind, Ins: []string{"in"}, Params: []string{"a"}, Outs: []OutSpec{{Name: "out", Pattern: "{i:in}.{p:a}.p"}}}
 		vals := []string{}
@@ -266,6 +286,13 @@ func catalog(p ScenParams) *WSpec {
 	case "prepend": // Process.Prepend: a launcher in front of every command of p
 		if ps := w.proc("p"); ps != nil {
 			ps.Prepend = "env"
+		}
+	case "escparam": // a parameter value that contains a literal backslash escape sequence (only used in the command)
+		if ps := w.proc("p"); ps != nil {
+			ps.FromStr["a"][len(ps.FromStr["a"])-1] = `b\u0026c\u003cd`
+			for i := range ps.Outs {
+				ps.Outs[i].Pattern = "{i:in}." + ps.Outs[i].Name
+			}
 		}
 	case "emptyparam-setout": // an empty string is a legal parameter value when it is only used in the path pattern
 		if ps := w.proc("p"); ps != nil {
